@@ -120,6 +120,7 @@ def _nonleaf_subterms(t):
 
 def execute(plan, tape):
     from pysmt.environment import reset_env, Environment
+    from pysmt.fnode import FNode as FNode_
     symbols = plan["symbols"]
     user = set(symbols) | {"k%s%d" % (a, b) for a in "bir" for b in range(3)}
     pool = plan["pool"]
@@ -147,6 +148,7 @@ def execute(plan, tape):
     state_last = {"formula": None}
     shared_dict = {}        # client -> the one dict object it keeps re-using
     shared_bp = {}          # client -> blueprint content of that dict
+    parsers = {}            # client -> its long-lived SmtLibParser
 
     def probe(n):
         probes[n] = probes.get(n, 0) + 1
@@ -165,7 +167,7 @@ def execute(plan, tape):
                 elif sig2[0] == k and sig2[1] != json.dumps({a: b for a, b in spec.items() if a not in ("client",)}, sort_keys=True):
                     nontrivial = True
                     probe("same_formula_different_arguments")
-        key = json.dumps({a: b for a, b in spec.items() if a not in ("client", "_dict")}, sort_keys=True)
+        key = json.dumps({a: b for a, b in spec.items() if a not in ("client", "_dict", "_parser")}, sort_keys=True)
         touched.append((spec["client"], subcache[i], (k, key)))
         if len(touched) > 40:
             touched.pop(0)
@@ -182,6 +184,14 @@ def execute(plan, tape):
                 shared_dict[c][bp.build(kt, env)] = bp.build(vt, env)     # in-place update of the client's dict
             spec["_dict"] = shared_dict[c]
             probe("shared_dict_updated_in_place")
+        if k == "parse_long":
+            from pysmt.smtlib.parser import SmtLibParser
+            if spec["client"] not in parsers:
+                parsers[spec["client"]] = SmtLibParser(environment=env)
+            else:
+                probe("long_lived_parser_reused")
+            spec["_parser"] = parsers[spec["client"]]
+        existing_before = set(env.formula_manager.symbols)
         try:
             f = bp.build(term, env) if derived_src is None else derived_src
             aged_build = None
@@ -204,12 +214,17 @@ def execute(plan, tape):
                 ff, fresh_build = None, type(ex).__name__
             if ff is not None and f is not None:
                 fspec = spec
+                if k == "parse_long":
+                    from pysmt.smtlib.parser import SmtLibParser
+                    fspec = dict(spec)
+                    fspec["_parser"] = SmtLibParser(environment=fresh)
                 if k == "substitute_shared":
                     fspec = dict(spec)
                     fspec["_dict"] = dict((bp.build(kt, fresh), bp.build(vt, fresh))
                                           for kt, vt in shared_bp[spec["client"]].values())
                 spec_out = calls.outcome(fresh, fspec, ff, term, user)
         spec.pop("_dict", None)
+        spec.pop("_parser", None)
         if aged_build != fresh_build:
             raise Violation("C14:build:history-dependent",
                             "step %d: constructing pool[%d]=%s %s in the aged environment but %s in a fresh one" %
@@ -226,6 +241,23 @@ def execute(plan, tape):
                              _show(aged), _show(spec_out)))
         if aged[0] == "ok" and isinstance(aged[2], tuple) and aged[2] and aged[2][0] == "fresh-collides":
             raise Violation("C14:fresh:collides", "FreshSymbol returned the existing user symbol %s" % aged[2][1])
+        # ---- symbols introduced by the call did not exist before it ("fresh" means new)
+        if aged[0] == "ok" and k in ("cnf", "prenex", "qelim", "nnf", "aig", "simplify", "substitute") \
+                and isinstance(aged[2], FNode_):
+            try:
+                res_syms = {x.symbol_name() for x in aged[2].get_free_variables()}
+                inp_syms = {x.symbol_name() for x in f.get_free_variables()}
+            except Exception:
+                res_syms, inp_syms = set(), set()
+            map_syms = set()
+            for kt, vt in spec.get("map", []) or []:
+                map_syms |= set(bp.symbols_of(vt))
+            introduced = res_syms - inp_syms - map_syms
+            reused = sorted(n for n in introduced if n in existing_before)
+            if reused:
+                raise Violation("C14:%s:fresh-symbol-not-new" % k,
+                                "step %d %s(pool[%d]): the result mentions %s, which are neither symbols of the input nor new: "
+                                "they existed in the environment before the call" % (step, k, i, reused))
         # ---- repetition returns the very same object
         from pysmt.fnode import FNode
         if aged[0] == "ok" and isinstance(aged[2], FNode) and k in ("simplify", "substitute", "substitute_shared",
